@@ -46,6 +46,9 @@ Section WithC07.
   Variable isch : CoerceModel.schema.
   Hypothesis Hclosed : CoerceSpec.schema_closed isch.
   Hypothesis Hinputs : CoerceSpec.schema_inputs isch.
+  (* no scalar of the input-side schema raises anything but ValueError /
+     TypeError from its parser (C07's model has a user scalar kind that does) *)
+  Hypothesis Hbehaved : CoerceSpec.scalars_behaved isch.
   Hypothesis Husable : args_usable sch isch.
 
   (* on the fields the executor meets, the real coercion returns the kwargs or
@@ -54,7 +57,7 @@ Section WithC07.
     field_definition sch tn name = Ok (Some (k, fd)) ->
     CoerceProofs.decided_k CoerceModel.RK_coercion (coerce_args_c07 isch vs fd node).
   Proof.
-    intros Hd. unfold coerce_args_c07. apply CoerceProofs.cav_total; [exact Hclosed|exact Hinputs|].
+    intros Hd. unfold coerce_args_c07. apply CoerceProofs.cav_total; [exact Hclosed|exact Hinputs|exact Hbehaved|].
     intros d Hin. apply in_map_iff in Hin as [a [<- Ha]]. simpl.
     unfold field_definition in Hd.
     destruct (str_eqb name s_typename); [inversion Hd; subst; destruct Ha|].
